@@ -81,7 +81,9 @@ impl StreamingQueryExecutor {
         ) {
             (Ok(time_range), Ok(predicates)) => (time_range, predicates),
             (Err(e), _) | (_, Err(e))
-                if is_table_not_found_error(&e) || self.engine.metrics_table_is_placeholder() =>
+                if is_table_not_found_error(&e)
+                    || is_unknown_column_error(&e)
+                    || self.engine.metrics_table_is_placeholder() =>
             {
                 let bootstrap_chunks = self.metadata.list_chunks().await?;
                 let bootstrap_paths: Vec<String> = bootstrap_chunks
@@ -116,10 +118,27 @@ impl StreamingQueryExecutor {
             .iter()
             .map(|chunk| chunk.chunk_path.clone())
             .collect();
-        let plan = self
-            .engine
-            .plan_with_metrics_table(&chunk_paths, sql)
-            .await?;
+        let plan = match self.engine.plan_with_metrics_table(&chunk_paths, sql).await {
+            // The statement planned against the start-up placeholder but names a column the
+            // selected chunks do not carry: learn the columns of the stored chunks, then bind
+            // the selected ones again.
+            Err(e) if is_unknown_column_error(&e) => {
+                let all_paths: Vec<String> = self
+                    .metadata
+                    .list_chunks()
+                    .await?
+                    .iter()
+                    .map(|chunk| chunk.chunk_path.clone())
+                    .collect();
+                self.engine
+                    .register_metrics_table_for_chunks(&all_paths)
+                    .await?;
+                self.engine
+                    .plan_with_metrics_table(&chunk_paths, sql)
+                    .await?
+            }
+            plan => plan?,
+        };
         let historical_batches = self.engine.execute_plan(plan).await?;
 
         let receiver = self.receiver;
@@ -212,6 +231,15 @@ fn is_table_not_found_error(error: &Error) -> bool {
             let msg = df_error.to_string().to_lowercase();
             msg.contains("table") && msg.contains("not found")
         }
+        _ => false,
+    }
+}
+
+/// The statement names a column the current `metrics` binding does not have. The binding only
+/// knows the columns of chunks this node has queried so far; stored chunks may carry others.
+fn is_unknown_column_error(error: &Error) -> bool {
+    match error {
+        Error::DataFusion(df_error) => df_error.to_string().contains("No field named"),
         _ => false,
     }
 }
